@@ -12,6 +12,10 @@
 //   relax_ilu_solve L U D b
 //   relax_lu_check kind k A L U D         (V-grade; L U D = what the implementation produced at generation time)
 //   relax_spai1_check A M                 (V-grade; M = the implementation's spai1::M)
+//   relax_spai1_m A                       relax_spai1_pre|post A f x tmp      relax_spai1_apply A f
+//                                         (F-grade: faithful model Model/RelaxSpai1.lean; M in stored order, exact equality)
+//   relax_ilupw_factors k A               relax_ilupw_pre|post k w A f x tmp  relax_ilupw_apply k A f   relax_ilupw_pad k A
+//                                         (F-grade: ilup.hpp as written, Model/RelaxIlup.lean)
 // Results: sweeps `x' tmp'`, apply `x'`, outcomes `precondition`, `bad-input`.
 //
 // Implementation-side oracles (independent of the Lean model, exact arithmetic, dense):
@@ -22,7 +26,10 @@
 //   * ILU family: factors read through apply() on unit vectors (B^-1 column by column, inverted and LU-split
 //     exactly); (L U)_ij = a_ij on the admitted pattern, factors inside the pattern, exact inverse on
 //     tridiagonal / arrow patterns and for ILU(k), k >= n;
-//   * SPAI-1: pattern of M = pattern of A, normal equations (exact where the rational sqrt is exact, else <= 2^-16).
+//   * SPAI-1: pattern of M = pattern of A, normal equations (exact where the rational sqrt is exact, else <= 2^-16 on strictly
+//     diagonally dominant matrices), sweep = x + M (f - A x), apply = M f with the implementation's own M;
+//   * ILUP as written: factors = dense ILU(0) recurrence on A padded to the dense boolean power pattern, (L U)_ij = a_ij on that
+//     pattern, real ilup(A, k) == real ilu0(padded matrix) as operators.
 #include "gen.hpp"
 #include <amgcl/relaxation/damped_jacobi.hpp>
 #include <amgcl/relaxation/spai0.hpp>
